@@ -213,6 +213,19 @@ PROPS["C19"] = {
     "trusted_base": TB_COMMON + ["std::net IP text round trip (recorded hypothesis)", "tonic/prost encode-decode of the messages"],
     "assumptions": ["parseIp (showIp a) = some a"],
 }
+PROPS["C20"] = {
+    "runner": "c20",
+    "design_ref": "DESIGN.md §6 C20",
+    "technique": "Lean 4 theorem by induction over arbitrary watch-event histories: the cache reducer (replace/add/swap_remove, atomic re-list) refines the Kubernetes object store — cached targets have unique identifiers and membership is exactly 'conversion of the latest observed object of that name, Ready or Allocated'; differential runs of the real AgonesDiscoveryAdapter against a loopback mock Kubernetes API",
+    "level_text": "Machine-checked proof for every history of Apply (ADDED/MODIFIED), Delete and Init/InitApply*/InitDone (list and re-list) events and every address parser: after the history the cache has unique identifiers and contains a target exactly when it is the conversion (name, parsed status.address, FIRST port, metadata with state, counters, lists, labels, annotations in override order) of the latest observed GameServer of that name and that server is Ready or Allocated; deletions, state changes, objects that become unconvertible and objects missing from a completed re-list are not offered. The real adapter is driven through kube's watcher by a mock API server (list, chunked watch stream with ADDED/MODIFIED/DELETED/BOOKMARK lines, 410 Gone followed by a re-list); discover() snapshots are taken at sentinel objects and compared with the model and with an object-store oracle.",
+    "level_note": "Trusted: Lean kernel; kube-runtime's translation of list/watch HTTP traffic into watcher::Event values (the model takes Events; the harness translates by the documented list-watch contract); IpAddr::from_str verdicts recorded; HashMap metadata modelled as association list with insert-overrides; timing: snapshots wait for a sentinel (3 s / 8 s for re-lists).",
+    "lean_modules": ["Passage.Props.C20"],
+    "cases": {"quick": 40, "thorough": 600},
+    "rule": "histories over four GameServers: random initial list, 1..9 events (thorough ..24) of ADDED/MODIFIED (states Ready, Allocated, Shutdown, Scheduled, Unhealthy, Reserved, Creating; unconvertible objects: no ports, bad address, no status; counters, lists, labels incl. a label named state, annotations), DELETED, BOOKMARK, and in some histories a 410 Gone with a re-list that omits/changes objects; a sentinel object after every event fixes the snapshot point; non-trivial = every history; distinct = distinct request lines",
+    "trusted_base": TB_COMMON + ["kube-runtime watcher: HTTP list/watch -> Event translation (documented contract)", "std::net IP parsing (recorded verdicts)"],
+    "assumptions": ["one namespace or unique names across namespaces (identity is metadata.name; see DESIGN §5.2)"],
+    "timeout": {"quick": 1800, "thorough": 14400},
+}
 
 # properties not claimed yet (kept current; the reason is the honest status)
 NOT_YET = {f"C{i:02d}": "check not built yet in this round (planned per DESIGN.md §9); no claim is made until its check runs green" for i in range(1, 21)}
